@@ -13,14 +13,15 @@ IsEvent(e) == l <= Len(Trace) /\ Trace[l].ev = e /\ l' = l + 1 /\ Mark(l)
 Dial == /\ IsEvent("dial")
         /\ LET ev == Trace[l]  t == Target(ev.s, ev.h, ev.p, ev.d) IN
            Report(l, IF Len(ev.seen) >= 1 /\ \A i \in 1..Len(ev.seen) :
-                           ev.seen[i][1] = t.net /\ ev.seen[i][2] = t.host /\ ev.seen[i][3] = t.port
+                           ev.seen[i][1] = t.net /\ ev.seen[i][2] = HostIp(t.host) /\ ev.seen[i][3] = t.port
                      THEN {} ELSE {"Inv_C17_Target"})
 
-\* hello {s, h, p, d, sni, host, hostport}
+\* hello {s, h, p, d, sni, host, hostport}: what a local fake server saw (URL host is the domain name)
+UrlName(tok) == IF tok = "dom" THEN "localhost" ELSE tok
 Hello == /\ IsEvent("hello")
          /\ LET ev == Trace[l] IN
-            Report(l, (IF UsesTls(ev.s) /\ ev.sni # Sni(ev.s, ev.h, ev.p, ev.d) THEN {"Inv_C17_Sni"} ELSE {})
-                   \cup (IF UsesHttp(ev.s) /\ (ev.host # Sni(ev.s, ev.h, ev.p, ev.d) \/ ev.hostport # ev.p) THEN {"Inv_C17_HttpHost"} ELSE {}))
+            Report(l, (IF UsesTls(ev.s) /\ ev.sni # UrlName(Sni(ev.s, ev.h, ev.p, ev.d)) THEN {"Inv_C17_Sni"} ELSE {})
+                   \cup (IF UsesHttp(ev.s) /\ (ev.host # UrlName(Sni(ev.s, ev.h, ev.p, ev.d)) \/ ev.hostport # ev.p) THEN {"Inv_C17_HttpHost"} ELSE {}))
 
 \* tls {s, cert, ca, skip, ok}
 Tls == /\ IsEvent("tls")
@@ -30,7 +31,8 @@ Tls == /\ IsEvent("tls")
 ServeEv == /\ IsEvent("serve")
            /\ Report(l, IF Trace[l].served = Serve(Trace[l].ccert, Trace[l].verify) THEN {} ELSE {"Inv_C17_ClientCert"})
 
-Next == Dial \/ Hello \/ Tls \/ ServeEv
+Note == IsEvent("note") /\ Report(l, IF Trace[l].sniok /\ Trace[l].hostok THEN {} ELSE {"Inv_C17_Sni"})
+Next == Dial \/ Hello \/ Tls \/ ServeEv \/ Note
 Spec == Init /\ [][Next]_l
 Post == Consumed
 =============================================================================
